@@ -19,9 +19,11 @@
      get_cpu_plans     := get_cpu_plans_g sort_exact       (used by theorems and by other models)
      get_cpu_plans_chk := get_cpu_plans_g sort_checked     (used by the correspondence check)
      numa_nodes info               distinct NUMA node ids of Capacity.NUMA (first-occurrence order)
+     numa_visit_order info origin  the order GetCPUPlans visits them in (origin's nodes first, then by id)
+     get_cpu_plans_det_g sortf info origin base maxfrag req fuel   = get_cpu_plans_g with that order
      default_fuel info             1 + total free pieces (enough for every loop, see C06)
-   [numa_order] is the oracle for Go's map iteration order over NUMA nodes; it must be a
-   permutation of [numa_nodes info].  A plan is (numa node id or "", cpu map).
+   [numa_order] was the oracle for Go's map iteration order over NUMA nodes (a permutation of
+   [numa_nodes info]); since /repo 3d8e6c0 the code uses [numa_visit_order info origin].  A plan is (numa node id or "", cpu map).
 *)
 From Coq Require Import String Ascii List ZArith Bool.
 From Verif Require Import Base.GoInt Base.GoFloat Base.GoHeap Cpumem.Types.
@@ -303,6 +305,25 @@ Fixpoint dedup (l : list string) : list string :=
   | x :: t => x :: filter (fun y => negb (String.eqb x y)) (dedup t)
   end.
 Definition numa_nodes (info : node_info) : list string := dedup (map snd (nr_numa (ni_cap info))).
+
+(* The order in which GetCPUPlans visits the NUMA nodes [/repo 3d8e6c0]: the nodes holding a
+   core of the origin map first, then by id (sort.Slice with a strict total order on the
+   distinct ids: the result does not depend on the sorting algorithm).  Before that commit
+   the order was Go's map iteration order; [get_cpu_plans_g] still takes the order as an
+   argument and every theorem holds for every duplicate-free order. *)
+Definition origin_on (numa : smap string) (origin : smap Z) (nid : string) : bool :=
+  existsb (fun kv => match lookup_opt numa (fst kv) with Some n => String.eqb n nid | None => false end) origin.
+Definition numa_less (numa : smap string) (origin : smap Z) (a b : string) : bool :=
+  let oa := origin_on numa origin a in
+  let ob := origin_on numa origin b in
+  if Bool.eqb oa ob then String.ltb a b else oa.
+Definition numa_visit_order (info : node_info) (origin : smap Z) : list string :=
+  isort (numa_less (nr_numa (ni_cap info)) origin) (numa_nodes info).
+(* GetCPUPlans as it is in /repo now: no oracle left *)
+Definition get_cpu_plans_det_g (sortf : list keyed -> outcome (list keyed)) (info : node_info) (origin : smap Z)
+   (base maxfrag : Z) (req : wreq) (fuel : nat) : outcome (list (string * plan)) :=
+  get_cpu_plans_g sortf info origin base maxfrag req (numa_visit_order info origin) fuel.
+Definition get_cpu_plans_det := get_cpu_plans_det_g sort_exact.
 
 (* fuel: 1 + free pieces of the node + free pieces of the cores listed in the NUMA map
    (every loop of the scheduler consumes at least one free piece per iteration) *)
